@@ -18,6 +18,7 @@ def configs(tier):
         Config(front="aio", backend="tree", prefix="/dav/", features=feats, props=props, oracles={"C01"}),
         Config(front="wsgi", backend="bare", prefix="/dav/", features=feats, props=props, oracles={"C01"}),
     ]
+    out.append(e1common.StoreCfg(kinds=("tree", "bare", "mem", "vdir"), oracles={"C01"}, features={"restart", "differential"} | ({"etagargs"} if tier == "thorough" else set())))
     if tier == "thorough":
         out += [
             Config(front="aio", backend="bare", prefix="/", features=feats, props=props, oracles={"C01"}),
@@ -28,6 +29,8 @@ def configs(tier):
 
 def run(tier, workers=None):
     def depth_of(cfg):
+        if isinstance(cfg, e1common.StoreCfg):
+            return (3, None) if tier == "quick" else (6, 6000)
         if tier == "quick":
             return (2, None)
         return (4, 4000)
